@@ -873,6 +873,9 @@ class _Walker:
                 return flat(first)
             return fresh
         if mod == 'functools' or mod == 'copy':
+            if mod == 'copy' and name == 'copy':
+                # a shallow copy: a new object whose attributes (the coefficient array of a polynomial) are shared
+                return join(fresh, flat(first))
             return fresh if mod == 'copy' else EMPTY
         if mod in ('traceback', 'time', 'os', 'math', 'warnings', 'string', 'mpmath', 'yapgvb'):
             return EMPTY
